@@ -147,6 +147,11 @@ def r20_1_fork_copies(repo: Repo, rep: Report):
                 rep.bad("R20.1", mm, ec, f"{q}: {f} not passed", f"fork site does not initialise {f}")
                 continue
             d, txt = _depth(v)
+            if q == "sevm.SEVM.run_message" and f in ("known_keys", "known_sigs"):
+                # sharing these between sibling paths of one transaction is the reviewed exception; between the
+                # post-setUp state and the tests started from it, it makes one test's vm.sign/vm.addr bookkeeping
+                # visible to the next (a repeated vm.sign takes the `existing signature` shortcut without constraints)
+                need = max(need, 1)
             rep.check("R20.1", d >= need, mm, v, f"{q}: {f}={txt}  [{kind}; copy depth {d} >= {need}]", f"{f} is a {kind}: the fork needs copy depth {need} but passes `{txt}` (sibling paths / later tests would share it)")
     # create_branch: the path really is a branch of the parent's path
     mm, cb = repo.fn("sevm.SEVM.create_branch")
@@ -475,6 +480,41 @@ def r20_8_no_aliasing_assignment(repo: Repo, rep: Report):
 MUTATORS = {"append", "extend", "add", "update", "pop", "popitem", "remove", "clear", "insert", "setdefault", "sort", "reverse", "discard", "appendleft"}
 
 
+def r20_10_shared_defaults_and_memo(repo: Repo, rep: Report):
+    rep.rule("R20.10", "no object is shared through a class-level default (dataclass fields get per-instance objects through default_factory); results handed out by a memoising getter are not modified by the caller")
+    IMMUTABLE_CALLS = {"frozenset", "tuple", "field", "int", "str", "bytes", "float", "bool", "con", "BitVecVal", "BitVecSort", "Lock", "RLock"}
+    n = 0
+    for modname, m in repo.modules.items():
+        for cls in [c for c in ast.walk(m.tree) if isinstance(c, ast.ClassDef)]:
+            if not any("dataclass" in src(d) for d in cls.decorator_list):
+                continue
+            for st in cls.body:
+                if isinstance(st, ast.AnnAssign) and st.value is not None and "ClassVar" not in src(st.annotation):
+                    n += 1
+                    v = st.value
+                    shared = isinstance(v, ast.Call) and call_name(v) not in IMMUTABLE_CALLS and call_name(v)[:1].isupper()
+                    rep.check("R20.10", not shared, m, st, f"{modname}.{cls.name}.{src(st.target)} = {src(v)[:50]}", "the default is one object created when the class is defined: every instance (every test's context) shares it - e.g. one solver executor whose shutdown flag, set by an early exit in one test, makes every later test abort")
+    if n < 20:
+        raise AnalysisError(f"R20.10: only {n} dataclass defaults found")
+    # memoising getters: Path.get_var_set returns the memo entry itself
+    ms, gv = repo.fn("sevm.Path.get_var_set")
+    memo = any(isinstance(r, ast.Return) and r.value is not None and src(r.value).startswith("self.term_to_vars[") for r in body_walk(gv))
+    rep.check("R20.10", memo, ms, gv, "Path.get_var_set returns the entry of the shared term_to_vars memo", "anchor changed: get_var_set no longer memoises (re-review its callers)")
+    MUT = {"update", "add", "discard", "remove", "clear", "pop", "difference_update", "intersection_update", "symmetric_difference_update"}
+    for modname in ("sevm", "__main__", "cheatcodes"):
+        m = repo.mod(modname)
+        for q, fn in repo.functions(modname):
+            names = {x.targets[0].id for x in body_walk(fn) if isinstance(x, ast.Assign) and len(x.targets) == 1 and isinstance(x.targets[0], ast.Name) and isinstance(x.value, ast.Call) and last_attr(x.value) == "get_var_set"}
+            if not names:
+                continue
+            for c in body_walk(fn):
+                if isinstance(c, ast.Call) and isinstance(c.func, ast.Attribute) and c.func.attr in MUT and isinstance(c.func.value, ast.Name) and c.func.value.id in names:
+                    rep.bad("R20.10", m, c, f"{modname}.{q}: {src(c)[:70]}", "the set returned by get_var_set is the memo entry shared by sibling paths (and by later tests): modifying it changes what other paths slice, hence their state identity")
+                elif isinstance(c, ast.AugAssign) and isinstance(c.target, ast.Name) and c.target.id in names and isinstance(c.op, (ast.BitOr, ast.BitAnd, ast.Sub, ast.BitXor)):
+                    rep.bad("R20.10", m, c, f"{modname}.{q}: {src(c)[:70]}", "in-place set operation on the memo entry returned by get_var_set")
+            rep.ok("R20.10", m, fn, f"{modname}.{q}: results of get_var_set ({sorted(names)}) are only read")
+
+
 def r20_9_module_containers_and_config(repo: Repo, rep: Report):
     rep.rule("R20.9", "no function writes into a module-level container (a cache shared by all contracts/tests), and configuration values are never mutated")
     REVIEWED = {
@@ -540,4 +580,4 @@ def r20_7_shared(repo: Repo, rep: Report):
     r18_4_scoping(repo, rep)
 
 
-RULES = [r20_9_module_containers_and_config, r20_8_no_aliasing_assignment, r20_7_shared, r20_6_shared, r20_0_no_dynamic_features, r20_1_fork_copies, r20_2_inactive_paths, r20_3_fresh_per_test, r20_4_process_wide_state, r20_5_uid_nominal]
+RULES = [r20_9_module_containers_and_config, r20_8_no_aliasing_assignment, r20_7_shared, r20_6_shared, r20_0_no_dynamic_features, r20_1_fork_copies, r20_2_inactive_paths, r20_3_fresh_per_test, r20_4_process_wide_state, r20_5_uid_nominal, r20_10_shared_defaults_and_memo]
